@@ -66,6 +66,7 @@ func parseAST(p string) *ReAST {
 type PatInfo struct {
 	Pat    string    `json:"pat"`
 	AST    *ReAST    `json:"ast"`
+	VText  string    `json:"vtext"` // tagFilter.value after Init
 	Final  *ReAST    `json:"final"`  // simplifyRegexp(Parse(pat)); op "empty" also for the emptyRegexp sentinel
 	Prefix string    `json:"prefix"` // extractRegexpPrefix
 	HasSfx bool      `json:"has_sfx"`
@@ -74,8 +75,18 @@ type PatInfo struct {
 	Rows   []AtomRow `json:"rows"`
 }
 
+// filterValueText: the value text of a regex tag filter after Init. It is part of the key of the tag-filter result cache
+// and of the cost cache (tagFilter.Marshal), and the expression the pruning path compiles (matchSeriesKeyTagFilter).
+func filterValueText(p string) string {
+	tf, err := tsi.VerifC10NewTagFilter([]byte("m"), []byte("k"), []byte(p), false, true)
+	if err != nil {
+		return p
+	}
+	return string(tf.Value())
+}
+
 func stagesOf(p string) *PatInfo {
-	pi := &PatInfo{Pat: p, AST: parseAST(p), OrV: []string{}}
+	pi := &PatInfo{Pat: p, AST: parseAST(p), VText: filterValueText(p), OrV: []string{}}
 	sre, err := syntax.Parse(p, syntax.Perl)
 	if err != nil {
 		return pi
